@@ -9,6 +9,7 @@ from __future__ import annotations
 from dataclasses import dataclass, field, replace
 import re
 
+import numpy as np
 from hypothesis import strategies as st
 
 from . import expr as X
@@ -65,6 +66,7 @@ class GenCfg:
     funcs: tuple = X.FUNCS1 + ("Mod",)
     allow_bool_connectives: bool = True
     allow_eq: bool = True
+    eq_plant: float = 0.1         # probability of an exact-equality switch on an input in a derivative
     annotations: bool = True     # units / descriptions / trailing comments
     multi_comp_atoms: bool = True
     deriv_as_var: float = 0.05
@@ -215,6 +217,19 @@ def gen_num_expr(c: Ctx, vars_, depth: int, in_binop: bool = False):
             if c.p(0.3):
                 b = ["neg", b]
             return ["call", "Mod", a, b]
+        if f in ("sin", "cos", "tan") and c.p(0.15):
+            # (multiples of) pi inside a sum: sympy peels them off when the function is created
+            pi_term = c.pick([["pi"], ["pi"], ["bin", "*", ["num", "2"], ["pi"]], ["bin", "/", ["pi"], ["num", "2"]], ["bin", "/", ["bin", "*", ["num", "2"], ["pi"]], ["num", "3"]], ["neg", ["pi"]]])
+            terms = [gen_num_expr(c, vars_, min(depth - 1, 1)), pi_term, gen_num_expr(c, vars_, min(depth - 1, 1))][: c.pick([2, 3, 3])]
+            order = c.pick([[0, 1, 2], [1, 0, 2], [0, 2, 1], [2, 1, 0]])
+            terms = [terms[i] for i in order if i < len(terms)]
+            arg = terms[0]
+            if len(terms) == 3 and c.p(0.3):
+                arg = ["bin", c.pick(["+", "-"]), terms[0], ["bin", c.pick(["+", "-"]), terms[1], terms[2]]]
+            else:
+                for t_ in terms[1:]:
+                    arg = ["bin", c.pick(["+", "+", "-"]), arg, t_]
+            return ["call", f, arg]
         return ["call", f, _guard(c, f, gen_num_expr(c, vars_, depth - 1))]
     if hit(cfg.p_cond):
         if c.p(0.35):
@@ -464,6 +479,18 @@ def gen_model(draw, cfg: GenCfg):
     if consts:
         for a in assigns:
             a["expr"] = fix_sub(a["expr"])
+    if cfg.allow_eq and cfg.eq_plant and c.p(cfg.eq_plant):
+        # an exact equality of an input with a literal decides a derivative (draw_point puts the
+        # input on and right beside the literal)
+        derivs = [a for a in assigns if a["name"] in {X.deriv_name(s["name"]) for s in states}]
+        if derivs:
+            a = c.pick(derivs)
+            v = c.pick([s["name"] for s in states] + [p["name"] for p in params])
+            lit = c.pick(["0.5", "2", "1.5", "1e-3", "40", "0.1", "3"])
+            sw = ["cond", ["rel", "Eq", ["var", v], ["num", lit]], ["num", "250"], ["num", "750"]]
+            if c.p(0.3):
+                sw[1] = ["rel", "Eq", ["num", lit], ["var", v]]
+            a["expr"] = ["bin", "+", a["expr"], sw]
     # textual order of assignments is independent of the dependency order
     assigns = draw(st.permutations(assigns))
     return {"states": states, "params": params, "assigns": list(assigns)}
@@ -538,11 +565,11 @@ def boundary_pairs(model):
                     if lhs[0] in ("var", "time"):
                         try:
                             if rhs[0] == "num":
-                                out.append((lhs[1], float(rhs[1])))
+                                out.append((lhs[1], float(rhs[1]), n[1]))
                             elif rhs[0] == "neg" and rhs[1][0] == "num":
-                                out.append((lhs[1], -float(rhs[1][1])))
+                                out.append((lhs[1], -float(rhs[1][1]), n[1]))
                             elif rhs[0] == "var" and lhs[0] == "var" and rhs[1] != lhs[1]:
-                                out.append((lhs[1], ("same-as", rhs[1])))  # Eq(x, p): exact equality of two inputs
+                                out.append((lhs[1], ("same-as", rhs[1]), n[1]))  # Eq(x, p): exact equality of two inputs
                         except ValueError:
                             pass
     return out
@@ -551,13 +578,33 @@ def boundary_pairs(model):
 def draw_point(draw, model, nonneg=False, t_strategy=None):
     pt = _draw_point(draw, model, nonneg, t_strategy)
     bp = boundary_pairs(model)
-    if bp and draw(st.integers(0, 3)) == 0:
-        var, val = draw(st.sampled_from(bp))
+    inputs = set(pt["states"]) | set(pt["params"]) | {"t", "time"}
+    eqs = [p for p in bp if p[2] == "Eq" and p[0] in inputs]
+    if eqs and draw(st.booleans()):
+        # an equality is only interesting on and right beside its threshold
+        bp = eqs
+        hit = True
+    else:
+        hit = bool(bp) and draw(st.integers(0, 3)) == 0
+    if hit:
+        var, val, _op = draw(st.sampled_from(bp))
         if isinstance(val, tuple):
             other = val[1]
             val = pt["states"].get(other, pt["params"].get(other))
             if val is None:
                 return pt
+        # on the threshold, one ulp beside it, or within a relative 1e-6 / 1e-7 of it (an
+        # implementation comparing with a tolerance differs from the exact relation there)
+        k = draw(st.sampled_from([0, 0, 0, 1, 2, 3, 4]))
+        val = float(val)
+        if k == 1:
+            val = float(np.nextafter(val, np.inf)) if val != 0 else 1e-12
+        elif k == 2:
+            val = float(np.nextafter(val, -np.inf)) if val != 0 else -1e-12
+        elif k == 3:
+            val = val * (1 + 1e-6) if val != 0 else 1e-9
+        elif k == 4:
+            val = val * (1 - 1e-7) if val != 0 else -1e-9
         if var in ("t", "time"):
             pt["t"] = val
         elif var in pt["states"]:
